@@ -34,7 +34,7 @@ git -C /repo apply "$SRC/patch.diff" || exit 6
 caught=""
 for P in $PROPS; do
   RACE=""; [ "$P" = "C19" ] && RACE="-race"
-  ( cd /verif/sim && go build $RACE -o /verif/.build/simkv-seed . ) || { git -C /repo checkout -- .; echo "RESULT $ID: harness build failed"; exit 7; }
+  ( cd /verif/sim && go build -tags verif $RACE -o /verif/.build/simkv-seed . ) || { git -C /repo checkout -- .; echo "RESULT $ID: harness build failed"; exit 7; }
   out=$(cd /verif && VERIF_WATCHDOG_S=${WD:-400} VERIF_DIR=/verif ./.build/simkv-seed check -prop "$P" -tier "${TIER:-quick}" -no-evidence 2>&1)
   rc=$?
   nv=$(echo "$out" | grep -c '^VIOLATION')
